@@ -234,6 +234,58 @@ def unsubAll (cfg : Cfg) : List Str → Routing → List Reaction → Out
     let o2 := unsubAll cfg more o.rt o.rest
     { o2 with exch := o.exch ++ o2.exch }
 
+/-! ### `async_resubscribe_all` with a requester that suspends (one trip round the event loop per request)
+
+  `asyncio.gather` starts every per-SID coroutine; each resolves its SID and sends its renewal before the
+  first response is processed (phase 1).  The responses are then processed in order (phase 2): an
+  unreachable / accepted renewal finishes its task, a refused one drops the SID and sends the fresh SUBSCRIBE.
+  Finally the fallback responses are processed in order (phase 3).  `gather` raises the first exception in
+  completion order: phase-2 completions come before phase-3 completions. -/
+
+/-- the next `n` reactions of the script (padded with the default) and the rest -/
+def takeReacts : Nat → List Reaction → List Reaction × List Reaction
+  | 0, rs => ([], rs)
+  | n + 1, rs => let p := takeReacts n (nextReact rs).2; ((nextReact rs).1 :: p.1, p.2)
+
+structure P2 where
+  rt : Routing
+  fallbacks : List Nat         -- services whose renewal was refused, in order
+  first : Option Exc
+
+def orElseExc (a : Option Exc) (b : Option Exc) : Option Exc := match a with | some e => some e | none => b
+
+def resubPhase2 (t : Int) : List ((Str × Nat) × Reaction) → P2 → P2
+  | [], p => p
+  | ((sid, svc), r) :: more, p =>
+    match r with
+    | .connErr => resubPhase2 t more { p with rt := erase p.rt sid, first := orElseExc p.first (some .connError) }
+    | .connTimeout => resubPhase2 t more { p with rt := erase p.rt sid, first := orElseExc p.first (some .connTimeout) }
+    | .resp status sid' th =>
+      if status ≠ 200 then resubPhase2 t more { p with rt := erase p.rt sid, fallbacks := p.fallbacks ++ [svc] }
+      else
+        let fin := renewFinish p.rt svc sid t sid' th
+        resubPhase2 t more { p with rt := fin.1, first := orElseExc p.first (excOf fin.2) }
+
+def resubPhase3 (t : Int) : List (Nat × Reaction) → Routing × Option Exc → Routing × Option Exc
+  | [], p => p
+  | (svc, r) :: more, p =>
+    let fin := subscribeFinish p.1 svc t r
+    resubPhase3 t more (fin.1, orElseExc p.2 (excOf fin.2))
+
+def resubAllSusp (cfg : Cfg) (rt : Routing) (rs : List Reaction) : Out :=
+  let t := Gen.C09Gena.defaultTimeoutResubscribe
+  let targets := (keys rt).filterMap fun s => (get? rt s).map fun i => (s, i)
+  let r1 := takeReacts targets.length rs
+  let rens := targets.zip r1.1
+  let p2 := resubPhase2 t rens { rt := rt, fallbacks := [], first := none }
+  let r2 := takeReacts p2.fallbacks.length r1.2
+  let subs := p2.fallbacks.zip r2.1
+  let p3 := resubPhase3 t subs (p2.rt, p2.first)
+  { rt := p3.1,
+    exch := (rens.map fun x => ⟨renewRequest cfg x.1.2 x.1.1 t, x.2⟩) ++ (subs.map fun x => ⟨subscribeRequest cfg x.1 t, x.2⟩),
+    res := (match p3.2 with | some e => .exc e | none => .none),
+    rest := r2.2 }
+
 def runCall (cfg : Cfg) (rt : Routing) (c : Call) (rs : List Reaction) : Out :=
   match c with
   | .subscribe svc t => doSubscribe cfg rt svc t rs
@@ -241,5 +293,12 @@ def runCall (cfg : Cfg) (rt : Routing) (c : Call) (rs : List Reaction) : Out :=
   | .unsubscribe tg => doUnsubscribe cfg rt tg rs
   | .resubscribeAll => resubAll cfg (keys rt) rt rs none
   | .unsubscribeAll => unsubAll cfg (keys rt) rt rs
+
+/-- `susp = true`: the requester suspends before answering.  Only `async_resubscribe_all` behaves differently
+    (`async_unsubscribe_all` sends one request per task, in the same order either way). -/
+def runCallS (cfg : Cfg) (susp : Bool) (rt : Routing) (c : Call) (rs : List Reaction) : Out :=
+  match susp, c with
+  | true, .resubscribeAll => resubAllSusp cfg rt rs
+  | _, c => runCall cfg rt c rs
 
 end Upnp.C09
